@@ -62,6 +62,27 @@ Theorem C09_unfixed_refuted :
 Proof. exact unfixed_refuted. Qed.
 Print Assumptions C09_unfixed_refuted.
 
+(* The fresh name getNewName derives from a validated name is the name itself or the name, a
+   dot and the DECIMAL digits of a counter below names_max_tries - whatever bytes the name consists
+   of ('%' and fmt verbs included: the name is an argument of the format, never the format, pinned
+   by names_getnewname_src_ok) - and it is again a single clean path element.  This is what lets
+   C09_confined hold after any number of arrivals of one name. *)
+Theorem C09_fresh_name_form : forall fs dest nm ln,
+  valid_name nm = true -> get_new_name fs dest nm = Some ln ->
+  good ln /\ (ln = nm \/ exists i, (i < N.to_nat names_max_tries)%nat /\
+                 ln = nm ++ [dot] ++ decimal (N.of_nat i) /\ Forall digit (decimal (N.of_nat i))).
+Proof. exact fresh_name_form. Qed.
+Print Assumptions C09_fresh_name_form.
+
+(* a name with a %c verb, already present with its first 48 alternatives: the 49th arrival is
+   stored as name.48, inside *)
+Example C09_fresh_name_percent :
+  let nm := [46; 46; 37; 99] (* "..%c" *) in
+  let f0 : fs := ([[100]], Dir) :: ([[100]; nm], File []) ::
+                 map (fun i => ([[100]; nm ++ [46] ++ decimal (N.of_nat i)], File [])) (seq 0 48) in
+  valid_name nm = true /\ get_new_name f0 [[100]] nm = Some (nm ++ [46; 52; 56]).
+Proof. vm_compute. split; reflexivity. Qed.
+
 (* ---- with overwrite requested: sources whose destination names collide are refused before
    anything is sent (checkDuplicateNames, called by tsz and by the client's upload; Model/NamesDup.v).
    With -y the receiver stores every entry under the name that was sent (no renaming), so inside
